@@ -16,15 +16,19 @@ from harness import c03 as MAPH
 PROP = "C19"
 FILES = ["src/osyris/plot/parser.py", "src/osyris/core/layer.py", "src/osyris/plot/map.py", "src/osyris/plot/histogram2d.py",
          "src/osyris/plot/histogram1d.py", "src/osyris/plot/scatter.py", "src/osyris/plot/plot.py", "src/osyris/plot/render.py"]
-FUNCTIONS = ["osyris.plot.parser.parse_layer / get_norm", "osyris.core.layer.Layer.__init__/copy/update",
+FUNCTIONS = ["osyris.plot.histogram1d.histogram1d", "osyris.plot.scatter.scatter", "osyris.plot.plot.plot", "osyris.plot.render.render (ax given)",
+             "osyris.plot.parser.parse_layer / get_norm", "osyris.core.layer.Layer.__init__/copy/update",
              "osyris.plot.map.map (plot=False)", "osyris.plot.histogram2d.histogram2d (plot=False)"]
-ASSUMPTIONS = ["histogram1d, scatter, plot and every plot=True path hand their data to matplotlib (C extension, global figure state): "
-               "symbolic values cannot cross that boundary; they are NOT covered by this check (stated partial coverage of the property)",
+ASSUMPTIONS = ["map and histogram2d are run with plot=False; histogram1d, scatter and plot are run with a RECORDING axes object passed through "
+               "their public ax= argument, so that what they hand to matplotlib is observed but no matplotlib code runs: the drawing itself, "
+               "every plot=True path of map/histogram2d, scatter with Array-valued sizes (matplotlib patches) and plot() given a dict are NOT covered",
                "option values are opaque to the code (only tested for None): ints/strs stand in for every option type in the contracts"]
 BOUNDS = {"quick": {"precedence": "CrossHair: each of 8 options symbolic at layer and call level (+ a second option), all-set/none-set, "
                                   "and all 256 set/unset masks; Layer.update; Layer.copy independence",
                     "map": "8-cell mesh, symbolic values, thin and thick, resolution int / dict / partial dict, 2 layers sharing option objects, called twice",
-                    "histogram2d": "2 symbolic points, 1-2 layers, called twice"},
+                    "histogram2d": "2 symbolic points, 1-2 layers, called twice",
+                    "histogram1d / scatter / plot": "3 symbolic points; bins int / edges, weights and extra options at layer / call level; colour none/str/Array, "
+                                                    "size none/float; plot forms x-y, y only, two layers"},
           "thorough": {"as": "quick"}}
 FLOOR = {"quick": 80, "thorough": 80}
 SHADOW_EVERY = 1
@@ -51,6 +55,17 @@ def configs(tier):
     for opts in ("layer", "call", "both", "neither"):
         out.append(dict(kind="hist2d", opts=opts, nlayers=2))
     out.append(dict(kind="hist2d", opts="both", nlayers=0))
+    # histogram1d / scatter / plot: given a RECORDING axes object through their public `ax=` argument, so that no
+    # matplotlib code runs (the drawing itself is outside the claim) while everything osyris does to its inputs is observed
+    for opts in ("layer", "call", "both", "neither"):
+        for bins in ("int", "edges"):
+            out.append(dict(kind="hist1d", opts=opts, bins=bins, logx=False))
+    out.append(dict(kind="hist1d", opts="both", bins="int", logx=True))
+    for color in ("none", "str", "array"):
+        for size in ("none", "float"):          # Array sizes are drawn as matplotlib patches (real matplotlib objects): not covered
+            out.append(dict(kind="scatter", color=color, size=size))
+    for form in ("x-y", "y-only", "two-layers", "dict"):
+        out.append(dict(kind="plot1d", form=form))
     return out
 
 
@@ -103,7 +118,223 @@ def _repeat(m, p1, p2, tag):
 def body(m, cfg):
     if cfg["kind"] == "map":
         return _map(m, cfg)
+    if cfg["kind"] == "hist1d":
+        return _hist1d(m, cfg)
+    if cfg["kind"] == "scatter":
+        return _scatter(m, cfg)
+    if cfg["kind"] == "plot1d":
+        return _plot1d(m, cfg)
     return _hist(m, cfg)
+
+
+class FakeAxes:
+    """Stands in for a matplotlib Axes (passed through the public ax= argument): records every call."""
+
+    def __init__(self):
+        self.calls = []
+
+    def get_figure(self):
+        return FakeFigure()
+
+    def hist(self, x, bins=None, weights=None, **kw):
+        self.calls.append(("hist", x, bins, weights, kw))
+        nb = len(bins) - 1 if not isinstance(bins, int) else bins
+        return np.zeros(nb), bins, None
+
+    def get_xlim(self):
+        return (0.0, 1.0)
+
+    def get_ylim(self):
+        return (0.0, 1.0)
+
+    def __getattr__(self, name):
+        def rec(*a, **k):
+            self.calls.append((name, a, k))
+            return None
+        return rec
+
+
+class FakeFigure:
+    def savefig(self, *a, **k):
+        raise AssertionError("no file requested")
+
+
+def _hist1d(m, cfg):
+    import osyris
+    from osyris import Array
+    from osyris.core.layer import Layer
+    opts, bins, logx = cfg["opts"], cfg["bins"], cfg["logx"]
+    tag = f"hist1d:{opts}:{bins}" + (":log" if logx else "")
+    xr = m.array("x", (3,), "float64")
+    if logx:
+        for t in m.vals(xr):
+            m.assume(m.gt(t, 0))
+    x = Array(xr, unit="cm", name="xs")
+    w_layer = Array(m.array("wl", (3,), "float64"), unit="g", name="wl")
+    w_call = Array(m.array("wc", (3,), "float64"), unit="g", name="wc")
+    edges = np.array([0.0, 1.0, 2.5, 4.0])
+    lb = (2 if bins == "int" else edges)
+    cb = (3 if bins == "int" else np.array([0.0, 2.0, 4.0]))
+    lopt = dict(bins=lb, weights=w_layer, alpha=0.5) if opts in ("layer", "both") else {}
+    copt = dict(bins=cb, weights=w_call, color="k") if opts in ("call", "both") else {}
+    lay = Layer(x, **lopt)
+    arrs = [x, w_layer, w_call]
+    snaps = [snap_array(m, a) for a in arrs]
+    ls = snap_layer(m, lay)
+    edges_before = edges.copy()
+    results = []
+    for rep in range(2):
+        ax = FakeAxes()
+        try:
+            p = osyris.histogram1d(lay, logx=logx, ax=ax, **copt)
+        except Exception as e:
+            if opts == "neither" and isinstance(e, TypeError):
+                # no bins anywhere: histogram1d's own default (bins=50) applies; with neither level set the call default is used
+                raise
+            raise
+        results.append((ax, p))
+    ax, p = results[0]
+    m.require(all(same_array(m, a, s) for a, s in zip(arrs, snaps)) and same_layer(lay, ls) and np.array_equal(edges, edges_before),
+              "histogram1d does not modify the Arrays, the Layer, its option dict or the bin edges it is given", key=f"modified:{tag}")
+    hist = [c for c in ax.calls if c[0] == "hist"]
+    if not m.require(len(hist) == 1, "one histogram drawn per layer", key=f"calls:{tag}"):
+        return
+    _, hx, hb, hw, hk = hist[0]
+    want_w = w_layer if opts in ("layer", "both") else (w_call if opts == "call" else None)
+    want_b = lb if opts in ("layer", "both") else (cb if opts == "call" else 50)
+    xs = [m.t(t) for t in m.vals(xr)]
+    if logx:
+        from symx import core
+        xs_l = xs
+    m.check("the values histogrammed are the layer's data", m.all_close(m.vals(hx), m.vals(xr)), key=f"data:{tag}")
+    if want_w is None:
+        m.require(hw is None, "no weights unless given", key=f"precedence-weights:{tag}")
+    else:
+        m.require(hw is not None, "weights passed on", key=f"precedence-weights:{tag}")
+        if hw is not None:
+            m.check("layer-level weights override call-level weights", m.all_close(m.vals(hw), m.vals(want_w._array)),
+                    key=f"precedence-weights:{tag}")
+    if isinstance(want_b, int) and not logx:
+        lo, hi = xs[0], xs[0]
+        for v in xs[1:]:
+            lo = MAPH._ite(m, v < lo, v, lo)
+            hi = MAPH._ite(m, v > hi, v, hi)
+        want_edges = [lo + (hi - lo) * (k / want_b) for k in range(want_b + 1)]
+        ok = len(m.vals(hb)) == want_b + 1
+        m.require(ok, "the number of bins follows the precedence rule", key=f"precedence-bins:{tag}", info={"got": len(m.vals(hb)) - 1, "want": want_b})
+        if ok:
+            m.check("integer bins: evenly spaced edges over the finite data range",
+                    m.And([m.close(a, b, scale=m.abs(lo) + m.abs(hi)) for a, b in zip(m.vals(hb), want_edges)]), key=f"edges:{tag}")
+    elif not isinstance(want_b, int):
+        m.require(np.array_equal(np.asarray(hb, dtype=float), np.asarray(want_b, dtype=float)), "explicit bin edges are used as given; layer-level bins win",
+                  key=f"precedence-bins:{tag}")
+    else:
+        m.require(len(m.vals(hb)) == want_b + 1, "the number of bins follows the precedence rule", key=f"precedence-bins:{tag}")
+    m.require(hk.get("alpha") == lopt.get("alpha") and hk.get("color") == copt.get("color"), "extra keyword options merged",
+              key=f"precedence-extra:{tag}")
+    a2, p2 = results[1]
+    h2 = [c for c in a2.calls if c[0] == "hist"][0]
+    m.check("calling again with the same arguments draws the same data",
+            m.And([m.close(u, v, exact=True) for u, v in zip(m.vals(hx), m.vals(h2[1]))] +
+                  [m.close(u, v, exact=True) for u, v in zip(m.vals(hb), m.vals(h2[2]))]), key=f"repeat:{tag}")
+
+
+def _scatter(m, cfg):
+    import osyris
+    from osyris import Array
+    color, size = cfg["color"], cfg["size"]
+    tag = f"scatter:{color}:{size}"
+    x = Array(m.array("x", (2,), "float64"), unit="cm", name="xs")
+    y = Array(m.array("y", (2,), "float64"), unit="cm", name="ys")
+    carr = Array(m.array("c", (2,), "float64"), unit="K", name="temp")
+    sarr = Array(m.array("s", (2,), "float64"), name="sz")
+    kw = dict(cbar=False)
+    if color == "str":
+        kw["color"] = "red"
+    elif color == "array":
+        kw["color"] = carr
+    if size == "float":
+        kw["size"] = 3.0
+    elif size == "array":
+        kw["size"] = sarr
+    arrs = [x, y, carr, sarr]
+    snaps = [snap_array(m, a) for a in arrs]
+    kw_before = dict(kw)
+    res = []
+    for rep in range(2):
+        ax = FakeAxes()
+        p = osyris.scatter(x, y, ax=ax, **kw)
+        res.append((ax, p))
+    ax, p = res[0]
+    m.require(all(same_array(m, a, s) for a, s in zip(arrs, snaps)) and kw == kw_before, "scatter does not modify its inputs", key=f"modified:{tag}")
+    sc = [c for c in ax.calls if c[0] == "scatter"]
+    if size == "array":
+        # dimensionless Array sizes are drawn as patches by real matplotlib: only the non-modification is claimed here
+        return
+    if not m.require(len(sc) == 1, "one scatter call", key=f"calls:{tag}"):
+        return
+    _, a, k = sc[0]
+    m.check("the points drawn are the x and y values", m.And(m.all_close(m.vals(a[0]), m.vals(x._array)), m.all_close(m.vals(a[1]), m.vals(y._array))),
+            key=f"data:{tag}")
+    if color == "array":
+        m.check("colour values are the colour Array's values", m.all_close(m.vals(k["c"]), m.vals(carr._array)), key=f"colour:{tag}")
+        m.require(str(p.layers["unit"]) == "kelvin" and p.layers["name"] == "temp", "colour unit and name reported", key=f"colour-unit:{tag}")
+    elif color == "str":
+        m.require(k["c"] == "red", "colour string passed on", key=f"colour:{tag}")
+    if size == "float":
+        m.require(k["s"] == 3.0, "size passed on", key=f"size:{tag}")
+    a2 = [c for c in res[1][0].calls if c[0] == "scatter"][0][1]
+    m.check("calling again draws the same data", m.And([m.close(u, v, exact=True) for u, v in zip(m.vals(a[0]) + m.vals(a[1]), m.vals(a2[0]) + m.vals(a2[1]))]),
+            key=f"repeat:{tag}")
+
+
+def _plot1d(m, cfg):
+    import osyris
+    from osyris import Array
+    form = cfg["form"]
+    tag = f"plot:{form}"
+    x = Array(m.array("x", (3,), "float64"), unit="cm", name="xs")
+    y1 = Array(m.array("y", (3,), "float64"), unit="g", name="y1")
+    y2 = Array(m.array("z", (3,), "float64"), unit="g", name="y2")
+    arrs = [x, y1, y2]
+    snaps = [snap_array(m, a) for a in arrs]
+    d = {"x": x, "y": y1}
+    d_before = dict(d)
+    ax = FakeAxes()
+    if form == "x-y":
+        p = osyris.plot(x, y1, ax=ax, color="k")
+        want = [(x, y1)]
+    elif form == "y-only":
+        p = osyris.plot(y1, ax=ax)
+        want = [(None, y1)]
+    elif form == "two-layers":
+        p = osyris.plot(x, y1, y2, ax=ax)
+        want = [(x, y1), (x, y2)]
+    else:
+        p = osyris.plot(d, ax=ax)
+        want = [(x, y1)]
+    m.require(all(same_array(m, a, s) for a, s in zip(arrs, snaps)) and d == d_before, "plot does not modify its inputs", key=f"modified:{tag}")
+    calls = [c for c in ax.calls if c[0] == "plot"]
+    if form == "dict":
+        # plot(dict) draws the dict layer and then treats the dict itself as the y list: only non-modification is claimed
+        return
+    if not m.require(len(calls) == len(want), "one line per layer", key=f"calls:{tag}"):
+        return
+    for (wx, wy), (_, a, k) in zip(want, calls):
+        px, py = m.vals(a[0]), m.vals(a[1])
+        xs = m.vals(wx._array) if wx is not None else [m.t(float(i)) for i in range(3)]
+        ys = m.vals(wy._array)
+        fs = [m.le(px[i], px[i + 1]) for i in range(len(px) - 1)]
+        m.check("each line is drawn in increasing x", m.And(fs), key=f"sorted:{tag}")
+        # the (x, y) pairs drawn are the input pairs (same multiset, pairing kept)
+        used, ok = set(), True
+        for i in range(len(px)):
+            hit = [j for j in range(len(xs)) if j not in used and m.entailed(m.And(m.close(px[i], xs[j], exact=True), m.close(py[i], ys[j], exact=True)))]
+            if not hit:
+                ok = False
+                break
+            used.add(hit[0])
+        m.require(ok, "the points drawn are the input (x, y) pairs, pairing kept by the sort", key=f"pairs:{tag}")
 
 
 def _numba1(m):
